@@ -39,6 +39,12 @@ def gen_case(rng, tier, idx):
         c = gen_history(rng, tier, {"long_lived": True, "ttl_menu": [None, 3, 40, 99, 100, 150], "max_levels": 3})
         c["drive"] = "direct"
         return c
+    if idx % 12 == 8:
+        from ..direct import gen_deep_auction_history
+
+        c = gen_deep_auction_history(rng, tier)
+        c["drive"] = "direct"
+        return c
     if idx % 12 in (1, 7, 10):
         c = gen_deep_cancel_history(rng, tier)
         c["drive"] = "direct"
